@@ -598,8 +598,18 @@ class B64Str(L.SymVal):
         self.rope = as_rope(rope)
 
     def sym_getattr(self, ctx, name):
-        if name in ("decode", "strip"):
-            return lambda *a, **k: self
+        if name == "strip":
+            def strip(*a, **k):
+                if a or k:
+                    raise Undecided("B64Str.strip with a character set")
+                return self             # Base64 text contains no whitespace
+            return strip
+        if name == "decode":
+            def decode(*a, **k):
+                if k or (a and (len(a) > 1 or a[0] not in ("ascii", "utf-8", "utf8", "latin-1"))):
+                    raise Undecided("B64Str.decode with unmodelled arguments")
+                return self             # Base64 text is ASCII
+            return decode
         raise Undecided("B64Str." + name)
 
     def sym_subscript(self, ctx, idx):
